@@ -3,6 +3,7 @@ CONSTANTS MaxDepth = 3
           MaxLen = 3
           Vals <- MCVals
           Limits <- LimitsQ
+          MaxClose = 2
           SimLen = 0
           SimLimits <- LimitsQ
 INVARIANTS Emit
